@@ -805,10 +805,11 @@ class Model(Object):
                     obj_coef = reaction.objective_coefficient
 
                     if obj_coef != 0:
+                        # resolve objective and variables when undoing, they
+                        # may have been replaced in the meantime
                         context(
                             partial(
-                                self.solver.objective.set_linear_coefficients,
-                                {forward: obj_coef, reverse: -obj_coef},
+                                setattr, reaction, "objective_coefficient", obj_coef
                             )
                         )
 
